@@ -73,75 +73,113 @@ def r08_4(ctx, run, rule='R08.4'):
             run.proved(rule, b.path, 'range-postcondition', 'every returned position is proven to lie in [0, length) from the path conditions', loc)
     run.floor(rule, 'return paths of convert_index/convert_slice', n, 8)
     # the proof above takes length >= 1 as given (convert_slice clamps an over-long end to `length - 1`): every caller must establish it
-    ncall = 0
-    for p_, b_ in sorted(f.bodies.items()):
-        if not p_.startswith('jsonpath::selector::') or b_.kind == 'Promoted':
-            continue
-        paths_, loops_ = editing.region_paths(b_)
-        verdict = {}
-        for q in paths_:
-            for e in q.calls():
-                if not (canon(e[1]) == canon(SEL + 'convert_slice') and e[2]):
-                    continue
-                L = strip_casts(deref_all(e[2][-1]))
-                pf = PathFacts(q.conds[:e[6]], nonneg=lambda a: True, typed=lambda a: IntervalSet([(0, INF)]))
-                if pf.infeasible():
-                    continue
-                try:
-                    r = pf.range_of_term(L)
-                except Exception:
-                    r = None
-                line = e[5].get('line')
-                if not (r is not None and not r.empty() and r.lo() >= 1) and q.blocks and q.blocks[0] != 0 and L[0] in ('init', 'hav') and isinstance(L[1], int):
-                    # inside a loop: the local is not assigned in the loop, so its value is the one the entry paths reach the loop head with
-                    head = q.blocks[0]
-                    assigned_in_loop = any(st_.get('k') == 'assign' and st_['place']['local'] == L[1] and not st_['place'].get('proj')
-                                           for bb_ in loops_.get(head, ()) for st_ in b_.blocks[bb_]['stmts'])
-                    ins = [q0 for q0 in paths_ if q0.blocks and q0.blocks[0] == 0 and q0.end == ('stop', head)]
-                    if ins and not assigned_in_loop:
-                        allok = True
-                        anyguard = False
-                        for q0 in ins:
-                            v0 = q0.store.get(('L', L[1]))
-                            if v0 is None:
-                                allok = False
+    cs = f.bodies.get(SEL + 'convert_slice')
+    argpos = None
+    if cs is not None:
+        ints = [i for i in range(1, cs.argc + 1) if str(cs.local_ty(i).get('s', '')) in ('i32', 'usize', 'u32', 'i64', 'u64', 'isize')]
+        argpos = ints[-1] - 1 if ints else None
+    if argpos is None:
+        run.undecided(rule, SEL + 'convert_slice', 'precondition[convert_slice length >= 1]', 'convert_slice has no integer length parameter this rule can follow to its callers: not decided')
+        return
+    region_cache = {}
+
+    def regions(b_):
+        if b_.path not in region_cache:
+            region_cache[b_.path] = editing.region_paths(b_)
+        return region_cache[b_.path]
+
+    def site_verdicts(target, pos, depth=0):
+        """{(caller path, line): 'ok' | 'bad' | 'unsure'} for every call of `target` in the selector module: is argument `pos` proven >= 1?
+        A caller that only forwards its own parameter is judged at *its* call sites (two levels)."""
+        out = {}
+        for p_, b_ in sorted(f.bodies.items()):
+            if not p_.startswith('jsonpath::selector::') or b_.kind == 'Promoted':
+                continue
+            if not any(canon(callee_name(t_)) == canon(target) for _bb, t_ in b_.calls()):
+                continue
+            paths_, loops_ = regions(b_)
+            verdict = {}
+            for q in paths_:
+                for e in q.calls():
+                    if not (canon(e[1]) == canon(target) and len(e[2]) > pos):
+                        continue
+                    L = strip_casts(deref_all(e[2][pos]))
+                    pf = PathFacts(q.conds[:e[6]], nonneg=lambda a: True, typed=lambda a: IntervalSet([(0, INF)]))
+                    if pf.infeasible():
+                        continue
+                    try:
+                        r = pf.range_of_term(L)
+                    except Exception:
+                        r = None
+                    line = e[5].get('line')
+                    proven = r is not None and not r.empty() and r.lo() >= 1
+                    if not proven and L[0] == 'init' and isinstance(L[1], int) and 1 <= L[1] <= b_.argc and '{closure' not in p_:
+                        # the caller's own parameter, passed on: the obligation moves to the callers of this function
+                        mentioned = any(L in set(subterms(c[0])) for c in q.conds[:e[6]])
+                        if not mentioned:
+                            sub = site_verdicts(p_, L[1] - 1, depth + 1) if depth < 2 else {}
+                            if sub and all(v_ == 'ok' for v_ in sub.values()):
+                                verdict.setdefault(line, 'ok')
+                            elif any(v_ == 'bad' for v_ in sub.values()):
+                                verdict[line] = 'bad'
+                            elif verdict.get(line) != 'bad':
+                                verdict[line] = 'unsure'
+                            continue
+                    if not proven and q.blocks and q.blocks[0] != 0 and L[0] in ('init', 'hav') and isinstance(L[1], int):
+                        # inside a loop: the local is not assigned in the loop, so its value is the one the entry paths reach the loop head with
+                        head = q.blocks[0]
+                        assigned_in_loop = any(st_.get('k') == 'assign' and st_['place']['local'] == L[1] and not st_['place'].get('proj')
+                                               for bb_ in loops_.get(head, ()) for st_ in b_.blocks[bb_]['stmts'])
+                        ins = [q0 for q0 in paths_ if q0.blocks and q0.blocks[0] == 0 and q0.end == ('stop', head)]
+                        if ins and not assigned_in_loop:
+                            allok = True
+                            anyguard = False
+                            for q0 in ins:
+                                v0 = q0.store.get(('L', L[1]))
+                                if v0 is None:
+                                    allok = False
+                                    continue
+                                v0 = strip_casts(deref_all(v0))
+                                pf0 = PathFacts(q0.conds, nonneg=lambda a: True, typed=lambda a: IntervalSet([(0, INF)]))
+                                try:
+                                    r0 = pf0.range_of_term(v0)
+                                except Exception:
+                                    r0 = None
+                                if not (r0 is not None and not r0.empty() and r0.lo() >= 1):
+                                    allok = False
+                                    if any(v0 in set(subterms(c[0])) for c in q0.conds):
+                                        anyguard = True
+                            if allok:
+                                verdict.setdefault(line, 'ok')
                                 continue
-                            v0 = strip_casts(deref_all(v0))
-                            pf0 = PathFacts(q0.conds, nonneg=lambda a: True, typed=lambda a: IntervalSet([(0, INF)]))
-                            try:
-                                r0 = pf0.range_of_term(v0)
-                            except Exception:
-                                r0 = None
-                            if not (r0 is not None and not r0.empty() and r0.lo() >= 1):
-                                allok = False
-                                if any(v0 in set(subterms(c[0])) for c in q0.conds):
-                                    anyguard = True
-                        if allok:
-                            verdict.setdefault(line, 'ok')
-                            continue
-                        if not anyguard and all(q0.store.get(('L', L[1])) is not None for q0 in ins):
+                            if not anyguard and all(q0.store.get(('L', L[1])) is not None for q0 in ins):
+                                verdict[line] = 'bad'
+                                continue
+                    if proven:
+                        verdict.setdefault(line, 'ok')
+                    else:
+                        mentioned = any(L in set(subterms(c[0])) for c in q.conds[:e[6]])
+                        # the guard may sit in an earlier region (before a loop head): only a path from the function entry is conclusive
+                        if q.blocks and q.blocks[0] == 0 and not mentioned:
                             verdict[line] = 'bad'
-                            continue
-                if r is not None and not r.empty() and r.lo() >= 1:
-                    verdict.setdefault(line, 'ok')
-                else:
-                    mentioned = any(L in set(subterms(c[0])) for c in q.conds[:e[6]])
-                    # the guard may sit in an earlier region (before a loop head): only a path from the function entry is conclusive
-                    if q.blocks and q.blocks[0] == 0 and not mentioned:
-                        verdict[line] = 'bad'
-                    elif verdict.get(line) != 'bad':
-                        verdict[line] = 'unsure' if verdict.get(line) != 'ok' or True else 'ok'
-        for line, v in sorted(verdict.items(), key=str):
-            ncall += 1
-            loc = f'{b_.file}:{line or b_.line}'
-            d = f'precondition[convert_slice length >= 1]@{ncall - 1}'
-            if v == 'ok':
-                run.proved(rule, p_, d, 'the array length passed is proven non-zero on the path to the call', loc)
-            elif v == 'bad':
-                run.violation(rule, p_, d, 'convert_slice is called with a length that was never tested against 0: for an empty array it clamps the range end to `length - 1` = -1, '
-                              'cast to usize a huge index (capacity overflow / out-of-range indices)', loc)
-            else:
-                run.undecided(rule, p_, d, 'whether the length passed to convert_slice is non-zero could not be established from the conditions on this path', loc)
+                        elif verdict.get(line) != 'bad':
+                            verdict[line] = 'unsure'
+            for line, v in verdict.items():
+                out[(p_, line, b_.file, b_.line)] = v
+        return out
+
+    ncall = 0
+    for (p_, line, file_, fline), v in sorted(site_verdicts(SEL + 'convert_slice', argpos).items(), key=str):
+        ncall += 1
+        loc = f'{file_}:{line or fline}'
+        d = f'precondition[convert_slice length >= 1]@{ncall - 1}'
+        if v == 'ok':
+            run.proved(rule, p_, d, 'the array length passed is proven non-zero on the path to the call (or, where this function only forwards its parameter, at each of its call sites)', loc)
+        elif v == 'bad':
+            run.violation(rule, p_, d, 'convert_slice is called with a length that was never tested against 0: for an empty array it clamps the range end to `length - 1` = -1, '
+                          'cast to usize a huge index (capacity overflow / out-of-range indices)', loc)
+        else:
+            run.undecided(rule, p_, d, 'whether the length passed to convert_slice is non-zero could not be established from the conditions on this path', loc)
 
 
 ORDS = {'Less': -1, 'Equal': 0, 'Greater': 1}
